@@ -290,7 +290,7 @@ func TestC19Unmarshal(t *testing.T) {
 			continue
 		}
 		t.Run(e.name, func(t *testing.T) {
-			ev.Check(t, 400, 8000, func(rt *rapid.T) {
+			ev.Check(t, 800, 8000, func(rt *rapid.T) {
 				doc, classes := genDocument(rt, e)
 				mutated := false
 				for _, c := range classes {
